@@ -198,10 +198,13 @@ def load_known():
 
 def match_known(known, prop, key):
     for k in known:
-        if k.get('property') != prop or k.get('status') != 'open':
+        kp = k.get('property')
+        if k.get('status') != 'open' or not (kp == prop or kp == '*' or (isinstance(kp, list) and prop in kp)):
             continue
         pat = k.get('key', '')
-        if pat == key or (k.get('regex') and re.fullmatch(pat, key)):
+        # keys are stored without the property prefix when an entry serves several properties
+        bare = key[len(prop) + 1:] if key.startswith(prop + ':') else key
+        if pat == key or pat == bare or (k.get('regex') and (re.fullmatch(pat, key) or re.fullmatch(pat, bare))):
             return k
     return None
 
